@@ -35,3 +35,173 @@ func b2s(b bool) string {
 	}
 	return "0"
 }
+
+func accTSNWindow(a *Association) uint32 { return a.payloadQueue.maxTSNOffset }
+
+func accStreams(a *Association) []*Stream {
+	ids := make([]int, 0, len(a.streams))
+	for id := range a.streams {
+		ids = append(ids, int(id))
+	}
+	sortInts(ids)
+	out := make([]*Stream, 0, len(ids))
+	for _, id := range ids {
+		out = append(out, a.streams[uint16(id)])
+	}
+	return out
+}
+
+func sortInts(a []int) {
+	for i := 1; i < len(a); i++ {
+		for j := i; j > 0 && a[j] < a[j-1]; j-- {
+			a[j], a[j-1] = a[j-1], a[j]
+		}
+	}
+}
+
+func accCounterSum(a *Association) int {
+	n := 0
+	for _, s := range a.streams {
+		n += s.reassemblyQueue.getNumBytes()
+	}
+	return n
+}
+
+func accReasmCounter(s *Stream) int { return s.reassemblyQueue.getNumBytes() }
+
+// accReasmTrueBytes recomputes the user bytes reachable from the queue structures.
+func accReasmTrueBytes(s *Stream) int {
+	r := s.reassemblyQueue
+	seen := map[*chunkPayloadData]bool{}
+	n := 0
+	add := func(c *chunkPayloadData) {
+		if c != nil && !seen[c] {
+			seen[c] = true
+			n += len(c.userData)
+		}
+	}
+	for _, set := range r.ordered {
+		for _, c := range set.chunks {
+			add(c)
+		}
+	}
+	for _, set := range r.unordered {
+		for _, c := range set.chunks {
+			add(c)
+		}
+	}
+	for _, c := range r.unorderedChunks {
+		add(c)
+	}
+	for _, set := range r.orderedMID {
+		for _, c := range set.chunks {
+			add(c)
+		}
+	}
+	for _, set := range r.unorderedMID {
+		for _, c := range set.chunks {
+			add(c)
+		}
+	}
+	for _, set := range r.orderedMIDMap {
+		for _, c := range set.chunks {
+			add(c)
+		}
+	}
+	for _, set := range r.unorderedMIDMap {
+		for _, c := range set.chunks {
+			add(c)
+		}
+	}
+	return n
+}
+
+func accT3Timeouts(a *Association) uint64 { return a.stats.getNumT3Timeouts() }
+
+func accInFastRecovery(a *Association) bool { return a.inFastRecovery }
+
+func accHeldDescription(a *Association) string {
+	out := ""
+	for _, s := range accStreams(a) {
+		r := s.reassemblyQueue
+		if r.getNumBytes() != 0 {
+			out += fmtHeld(s.streamIdentifier, r.getNumBytes(), len(r.ordered), len(r.unordered), len(r.unorderedChunks), len(r.orderedMID), len(r.unorderedMID))
+		}
+	}
+	return out
+}
+
+func accReadable(s *Stream) bool { return s.reassemblyQueue.isReadable() }
+
+// accReasmLeftovers lists every chunk still reachable from the stream's reassembly queue.
+type leftover struct {
+	idata     bool
+	unordered bool
+	mid       uint32
+	ssn       uint16
+	tsn       uint32
+	n         int
+}
+
+func accReasmLeftovers(s *Stream) []leftover {
+	r := s.reassemblyQueue
+	seen := map[*chunkPayloadData]bool{}
+	var out []leftover
+	add := func(c *chunkPayloadData) {
+		if c != nil && !seen[c] {
+			seen[c] = true
+			out = append(out, leftover{idata: c.isIData(), unordered: c.unordered, mid: c.messageIdentifier, ssn: c.streamSequenceNumber, tsn: c.tsn, n: len(c.userData)})
+		}
+	}
+	for _, set := range r.ordered {
+		for _, c := range set.chunks {
+			add(c)
+		}
+	}
+	for _, set := range r.unordered {
+		for _, c := range set.chunks {
+			add(c)
+		}
+	}
+	for _, c := range r.unorderedChunks {
+		add(c)
+	}
+	for _, set := range r.orderedMID {
+		for _, c := range set.chunks {
+			add(c)
+		}
+	}
+	for _, set := range r.unorderedMID {
+		for _, c := range set.chunks {
+			add(c)
+		}
+	}
+	for _, k := range sortedKeys32(r.orderedMIDMap) {
+		for _, c := range r.orderedMIDMap[k].chunks {
+			add(c)
+		}
+	}
+	for _, k := range sortedKeys32(r.unorderedMIDMap) {
+		for _, c := range r.unorderedMIDMap[k].chunks {
+			add(c)
+		}
+	}
+	return out
+}
+
+func sortedKeys32(m map[uint32]*chunkSetMID) []uint32 {
+	ks := make([]uint32, 0, len(m))
+	for k := range m {
+		ks = append(ks, k)
+	}
+	for i := 1; i < len(ks); i++ {
+		for j := i; j > 0 && ks[j] < ks[j-1]; j-- {
+			ks[j], ks[j-1] = ks[j-1], ks[j]
+		}
+	}
+	return ks
+}
+
+func accHasStream(a *Association, sid uint16) bool { _, ok := a.streams[sid]; return ok }
+
+func accStreamUnordered(s *Stream) bool { return s.unordered }
